@@ -5,7 +5,8 @@ From SudachiVerif Require Generated.TrieBits.
 From SudachiVerif Require Import Model.Trie Model.WordIdTable Model.LexSet.
 From SudachiVerif Require Import Proofs.TrieProofs Proofs.WordIdTableProofs Proofs.LexSetProofs.
 From SudachiVerif Require Import Model.IndexBuild Proofs.IndexBuildProofs.
-From SudachiVerif Require Model.Buffer Proofs.PipelineProofs Proofs.BuildLatticeProofs Proofs.BuildOptimal Proofs.LookupLattice.
+From SudachiVerif Require Model.Buffer Model.Lattice Model.BuildLattice Proofs.PipelineProofs Proofs.BuildLatticeProofs Proofs.BuildOptimal Proofs.LookupLattice.
+From Coq Require ZArith.
 Import ListNotations.
 Open Scope N_scope.
 
@@ -165,6 +166,21 @@ Theorem C04_index_table_spec : forall rows tbl kos,
 Proof. exact (fun rows tbl kos => index_table_spec C04_fact_index_shapes C04_fact_should_index rows tbl kos C04_fact_group_limit). Qed.
 Print Assumptions C04_index_table_spec.
 
+(* closing the loop through the model: if the model of IndexBuilder run on the CSV reproduces the word-id table section byte for
+   byte and the verified enumerator reads exactly the model's (key, offset) pairs out of the trie section (both checked on
+   every compiled dictionary of the correspondence run), then for EVERY byte text and offset lookup = naive CSV scan.  What is
+   validated per dictionary instead of proved is the yada builder alone. *)
+Theorem C04_lookup_exact_of_index_model : forall L rows fuel,
+  N.of_nat (length rows) <= 268435456 -> index_cert L rows fuel = true ->
+  forall dic text off, N.land dic Generated.LexFacts.DIC_MASK = dic -> bytes text ->
+  exists l, lex_lookup L dic text off = Some l /\
+            forall w e, In (w, e) l <-> In (w, e) (naive_lex dic rows text off).
+Proof.
+  exact (fun L rows fuel Hlen => lex_lookup_exact_of_index_cert C04_fact_index_shapes C04_fact_should_index L rows fuel
+                                   C04_fact_layout C04_fact_group_limit Hlen).
+Qed.
+Print Assumptions C04_lookup_exact_of_index_model.
+
 (* ---- lookup results as lattice nodes (ties C04 to C02's build_optimal) ---- *)
 Close Scope N_scope.
 Open Scope nat_scope.
@@ -215,3 +231,21 @@ Theorem C04_offered_wf_from_lookup : forall lexs params bow t oov fallback,
     BuildLatticeProofs.node_wf (PipelineProofs.nchars t) p m.
 Proof. exact (LookupLattice.offered_wf_from_lookup Buffer.the_cfg C04_fact_buffer_cfg). Qed.
 Print Assumptions C04_offered_wf_from_lookup.
+
+(* C02's optimality theorem for the tokenizer's own loop with the dictionary half of its hypothesis discharged: candidates at
+   character p (p < number of characters) = nodes made from lookup results of certified lexicons ++ any well-formed OOV nodes *)
+Theorem C04_build_optimal_with_dictionary : forall conn lexs params bow t oov fallback L r i c,
+  (forall L0, In L0 lexs -> LookupLattice.lex_keys_utf8 L0) -> bytes t -> chars_ok t ->
+  (forall p m, p < PipelineProofs.nchars t -> In m (oov p) -> BuildLatticeProofs.node_wf (PipelineProofs.nchars t) p m) ->
+  (forall p f, p < PipelineProofs.nchars t -> fallback p = Some f -> BuildLatticeProofs.node_wf (PipelineProofs.nchars t) p f) ->
+  0 < PipelineProofs.nchars t ->
+  BuildLattice.build conn (LookupLattice.lattice_cands Buffer.the_cfg lexs params bow t oov)
+                     (LookupLattice.lattice_fallback t fallback) (PipelineProofs.nchars t) = Some (L, (r, i, c)) ->
+  (exists p, BuildOptimal.chainP (BuildOptimal.Offered (LookupLattice.lattice_cands Buffer.the_cfg lexs params bow t oov)
+                                                       (LookupLattice.lattice_fallback t fallback)) 0 (PipelineProofs.nchars t) p
+             /\ Lattice.path_cost conn p = c) /\
+  (forall p, BuildOptimal.chainP (BuildOptimal.Offered (LookupLattice.lattice_cands Buffer.the_cfg lexs params bow t oov)
+                                                       (LookupLattice.lattice_fallback t fallback)) 0 (PipelineProofs.nchars t) p ->
+             BinInt.Z.le c (Lattice.path_cost conn p)).
+Proof. exact (LookupLattice.build_optimal_with_dictionary Buffer.the_cfg C04_fact_buffer_cfg). Qed.
+Print Assumptions C04_build_optimal_with_dictionary.
